@@ -40,11 +40,18 @@ impl EdgeLocate for OpenEdge {
         &self,
         _section: &Curve2,
         stations: Vec<InscribedCircle>,
-        _front: bool,
+        front: bool,
         _af_tol: f64,
     ) -> Result<(Option<AirfoilEdge>, Vec<InscribedCircle>)> {
+        // The stations run from the leading to the trailing edge, so the edge at the front of the
+        // camber line is at the first station and the one at the back is at the last.
+        let end = if front {
+            stations.first()
+        } else {
+            stations.last()
+        };
         Ok((
-            Some(AirfoilEdge::open(stations.last().unwrap().circle.center)),
+            Some(AirfoilEdge::open(end.unwrap().circle.center)),
             stations,
         ))
     }
